@@ -255,13 +255,65 @@ def rule_r4(ctx, rep):
     rep.floor("threshold points", 12)
 
 
+def rule_r5_r6(ctx, rep):
+    """R5: the text of a TextType element is collected over *all* para / markdown descendants (not children only);
+    R6: 'exists' flags that guard a recommendation are latched: inside the scan loop they are only ever set to True"""
+    prog = ctx.prog
+    w = ctx.world
+    mi = prog.module(EVAL)
+    gt = prog.func(EVAL + ".get_text_content")
+    rep.touch(gt)
+    ft = w.types(gt)
+    want = {"para", "markdown"}
+    got = set()
+    for n in ast.walk(gt.node):
+        if isinstance(n, ast.Call):
+            for tg in w.resolve_call(ft, n):
+                if tg.func is not None and tg.func.name == "find_all_descendants" and n.args and isinstance(n.func, ast.Attribute) \
+                        and isinstance(n.func.value, ast.Name) and n.func.value.id == gt.params[0]:
+                    v = prog.const(mi, n.args[0])
+                    if isinstance(v, str):
+                        got.add(v)
+    for name in sorted(want):
+        rep.count("text collections over descendants")
+        ok = name in got
+        rep.oblige(("R5", name), ok)
+        if not ok:
+            rep.add("R5", gt.qname, f"collection of '{name}' text", f"the text of '{name}' elements is not collected from all descendants of the text element: "
+                    f"text inside section / list items is not counted, so a long abstract or a filled description is reported as missing or too short", gt.loc())
+    # R6 latched flags
+    from ..model import iter_funcs_in_module
+    for fi in iter_funcs_in_module(mi):
+        flags = {}
+        for st_ in fi.node.body:
+            if isinstance(st_, ast.Assign) and len(st_.targets) == 1 and isinstance(st_.targets[0], ast.Name) and isinstance(st_.value, ast.Constant) and st_.value.value is False:
+                flags[st_.targets[0].id] = st_
+        if not flags:
+            continue
+        for lp in ast.walk(fi.node):
+            if not isinstance(lp, ast.For):
+                continue
+            for n in ast.walk(lp):
+                if isinstance(n, (ast.Assign, ast.AugAssign)):
+                    for t in (n.targets if isinstance(n, ast.Assign) else [n.target]):
+                        if isinstance(t, ast.Name) and t.id in flags:
+                            rep.count("flag assignments inside scan loops")
+                            ok = isinstance(n, ast.Assign) and isinstance(n.value, ast.Constant) and n.value.value is True
+                            rep.oblige(("R6", fi.qname, t.id, norm(n)), ok)
+                            if not ok:
+                                rep.add("R6", fi.qname, n, f"the 'found' flag `{t.id}` can be reset inside the scan loop (it is assigned `{norm(n.value)}`, not the "
+                                        f"constant True): whether the recommendation fires depends on the order of the children", fi.loc(n))
+    rep.floor("text collections over descendants", 2)
+    rep.floor("flag assignments inside scan loops", 5)
+
+
 def run(ctx, rep):
     rep.explanation = (
         "escape analysis of evaluate.tree / evaluate.node through the dispatch table (every strict use of a nullable Node field "
         "must hold a non-null fact); keys of the table fold to known element names; every value appended to a warning list is a "
         "(declared EvaluationWarning member, str, Node) triple; the walk visits all children unconditionally; every declared "
         "warning is emitted somewhere; the three threshold guards are evaluated at t-1, t, t+1")
-    rep.rules_run = ["R1", "R2", "R3", "R4"]
+    rep.rules_run = ["R1", "R2", "R3", "R4", "R5", "R6"]
     rep.assumptions += ["NOT decided: that the emitted set equals the documented recommendations on every tree (behavioural)",
                         "word counting relies on normalize()/str.split (library semantics, C20)"]
     only = getattr(rep, "only", None)
@@ -271,3 +323,5 @@ def run(ctx, rep):
         rule_r2_r3(ctx, rep)
     if only in (None, "R4"):
         rule_r4(ctx, rep)
+    if only in (None, "R5", "R6"):
+        rule_r5_r6(ctx, rep)
